@@ -39,6 +39,7 @@ Wr(e) == CASE e = "pa" -> <<"a", "\n">>            \* print('a')
            [] e = "pas" -> <<"a", " ", "\n">>       \* print('a ')
            [] e = "pab" -> <<"a", "\t", "b", "\n">> \* print('a', 'b', sep='\t')
            [] e = "w" -> <<"b">>                    \* sys.stdout.write('b')
+           [] e = "wl" -> <<"b", "\n", "a", "\n">>  \* sys.stdout.writelines(x for x in ['b\n', 'a\n']): lines from a generator
            [] e = "sp" -> <<" ", " ", "\n">>        \* print('  ')
            [] e = "pcr" -> <<"a", "\r">>            \* print('a', end='\r'): a progress line
            [] e = "pcrb" -> <<"a", "\r", "b", "\n">> \* print('a\rb')
@@ -168,17 +169,24 @@ DoExec(prog, a) ==
         g0 == RunEffs(EffsOf(prog), IF a.op \in {"run_in", "call_in"} THEN a.xs ELSE q, <<>>, <<>>)
         g == g0
     IN /\ pTrace' = x.pTrace /\ pOut' = x.pOut /\ pSleep' = x.pSleep /\ pMods' = x.pMods /\ patches' = x.patches
-       /\ stdouts' = x.stdouts /\ raw' = x.raw /\ lines' = x.lines /\ ctxs' = x.ctxs /\ inputs' = x.inputs
+       /\ stdouts' = x.stdouts /\ raw' = x.raw /\ lines' = x.lines /\ ctxs' = x.ctxs
+       /\ inputs' = IF a.op = "run_real" THEN <<>> ELSE x.inputs
        /\ exc' = x.exc /\ fbs' = x.fbs /\ status' = x.status
-       /\ written' = written \o g.w /\ shares' = Append(shares, g.w) \o [j \in 1..NCb(prog) |-> <<>>] /\ q' = g.queue
+       /\ written' = written \o g.w /\ shares' = Append(shares, g.w) \o [j \in 1..NCb(prog) |-> <<>>]
+       /\ q' = IF a.op = "run_real" THEN <<>> ELSE g.queue
        /\ consumed' = Append(consumed, g.used) \o [j \in 1..NCb(prog) |-> <<>>]
-       /\ defined' = (defined \/ (a.op = "run" /\ prog.mode \notin {"syntax", "nul"}))
+       /\ defined' = (defined \/ (a.op \in {"run", "run_real"} /\ prog.mode \notin {"syntax", "nul"}))
        /\ UNCHANGED <<file, clearedAt>> /\ Step(a)
 
 \* nothing may be executed while a previous call left the process patched (the harness stops there)
 Clean == pOut = "real" /\ patches = <<>>
 Run == CanAct /\ Clean /\ "run" \in Entries /\ DoExec(file.top, A("run", 0, <<>>))
 Call(i) == CanAct /\ Clean /\ defined /\ "call" \in Entries /\ i \in 1..Len(file.fns) /\ DoExec(file.fns[i], A("call", i, <<>>))
+\* run(real_io=True): print also goes to the real console and input() is the real one while the program runs; what
+\* is captured is the same, and afterwards the input queue is empty (clear_input).  Only for programs that do not
+\* read (the real stdin is not the checker's to feed).
+NoReads(prog) == \A j \in 1..Len(prog.effs) : ~Reads(prog.effs[j])
+RunReal == CanAct /\ Clean /\ "run_real" \in Entries /\ NoReads(file.top) /\ DoExec(file.top, A("run_real", 0, <<>>))
 RunIn(g) == CanAct /\ Clean /\ "run" \in Entries /\ DoExec(file.top, A("run_in", 0, GivenSeq(g)))
 CallIn(i, g) == CanAct /\ Clean /\ defined /\ "call" \in Entries /\ i \in 1..Len(file.fns) /\ DoExec(file.fns[i], A("call_in", i, GivenSeq(g)))
 Evaluate(i) == CanAct /\ Clean /\ defined /\ "evaluate" \in Entries /\ i \in 1..Len(file.fns) /\ DoExec(file.fns[i], A("evaluate", i, <<>>))
@@ -216,7 +224,7 @@ Init == /\ file \in Files
         /\ status = "returned" /\ defined = FALSE /\ written = <<>> /\ shares = <<>> /\ clearedAt = 0 /\ q = <<>>
         /\ consumed = <<>> /\ hist = <<>>
 
-Next == \/ Run \/ (\E i \in 1..MaxFns : Call(i) \/ Evaluate(i))
+Next == \/ Run \/ RunReal \/ (\E i \in 1..MaxFns : Call(i) \/ Evaluate(i))
         \/ (\E g \in Givens : RunIn(g) \/ \E i \in 1..MaxFns : CallIn(i, g))
         \/ ClearOutput \/ ClearInput
         \/ \E xs \in {<<"i1">>, <<"i1", "i2">>, <<>>}, c \in BOOLEAN : SetInput(xs, c)
@@ -224,8 +232,8 @@ Spec == Init /\ [][Next]_vars
 
 (* ---------- CONTRACT ---------- *)
 LastA == hist[Len(hist)].a
-WasExec == hist # <<>> /\ LastA.op \in {"run", "call", "evaluate", "run_in", "call_in"}
-LastProg == IF LastA.op \in {"run", "run_in"} THEN file.top ELSE file.fns[LastA.i]
+WasExec == hist # <<>> /\ LastA.op \in {"run", "call", "evaluate", "run_in", "call_in", "run_real"}
+LastProg == IF LastA.op \in {"run", "run_in", "run_real"} THEN file.top ELSE file.fns[LastA.i]
 OuterIdx == Len(ctxs) - NCb(LastProg)      \* the context of the last entry-point execution (nested ones come after it)
 \* C05
 Restored == /\ pOut = "real" /\ pSleep = "real" /\ pMods = "real" /\ patches = <<>> /\ stdouts = <<>>
